@@ -148,6 +148,8 @@ pub enum NeedleMode {
     Longer(Vec<u16>),
     /// independent draw from the palette
     Independent(Vec<u16>),
+    /// subsequence with two neighbouring characters transposed (same multiset, usually no match)
+    SubseqSwap(Vec<u16>, u16),
 }
 
 pub fn needle_mode(max_len: usize) -> BoxedStrategy<NeedleMode> {
@@ -162,6 +164,7 @@ pub fn needle_mode(max_len: usize) -> BoxedStrategy<NeedleMode> {
         4 => Just(NeedleMode::Whole),
         3 => proptest::collection::vec(any::<u16>(), 1..=3).prop_map(NeedleMode::Longer),
         13 => proptest::collection::vec(any::<u16>(), 1..=l).prop_map(NeedleMode::Independent),
+        10 => (proptest::collection::vec(any::<u16>(), 2..=l.max(2)), any::<u16>()).prop_map(|(v, a)| NeedleMode::SubseqSwap(v, a)),
     ]
     .boxed()
 }
@@ -217,6 +220,20 @@ pub fn derive_needle(hay: &[char], palette: &[char], cfg: Cfg, mode: &NeedleMode
             fix(v)
         }
         NeedleMode::Independent(sels) => fix(sels.iter().map(|&s| palette[map_idx(s, palette.len())]).collect()),
+        NeedleMode::SubseqSwap(sels, at) => {
+            if n == 0 {
+                return vec![];
+            }
+            let mut pos: Vec<usize> = sels.iter().map(|&s| map_idx(s, n)).collect();
+            pos.sort();
+            pos.dedup();
+            let mut v: Vec<char> = pos.into_iter().map(|p| nh[p]).collect();
+            if v.len() >= 2 {
+                let k = map_idx(*at, v.len() - 1);
+                v.swap(k, k + 1);
+            }
+            fix(v)
+        }
     }
 }
 
